@@ -220,6 +220,10 @@ def run_check(prop, tier='quick', replay=None):
     if replay:
         want = json.load(open(replay))
         violations = [o for o in violations if o.rule == want.get('rule') and o.key == want.get('instance')]
+    for old_name, new_name in sorted(fb.renamed.items()):
+        # a function the rules address by name was renamed (recognised by kind, owner, signature and callees: fingerprints.json)
+        ctx.notes.append('renamed function: the rules\' `%s` is now `%s`' % (old_name, new_name))
+        print('[pvx] note: `%s` is now called `%s` (same owner, signature and callees); the rules address it by the old name' % (old_name, new_name))
     for ob, k in known_hit:
         print('KNOWN-FINDING: property=%s %s [%s %s] %s' % (prop, k.get('what', ''), ob.rule, ob.key, ob.loc))
     for ob in violations:
